@@ -297,12 +297,12 @@ func (i *interpreter) formatArg(fr *frame, spec string, verb byte, arg value) *T
 		default:
 			return x.t
 		}
-	case symInt, symBool:
-		// no symbolic integer formatting: keep an opaque fresh string
-		if i.ps == nil {
-			unsupported("formatting symbolic value outside a path")
-		}
-		return mkVar(i.ps.freshName("fmt"), sortStr)
+	case symInt:
+		// no symbolic integer formatting: an opaque string that is a function
+		// of the value and the verb
+		return opaqueStringOf("fmt%"+spec+string(verb), x.t)
+	case symBool:
+		return mkIte(x.t, mkStr("true"), mkStr("false"))
 	case string:
 		return mkStr(fmt.Sprintf("%"+spec+string(verb), x))
 	case bool, int, int8, int16, int32, int64, uint, uint8, uint16, uint32, uint64, uintptr, float32, float64:
